@@ -41,8 +41,10 @@ class EADeme(AbstractDeme):
     def run_metaepoch(self, tree) -> None:
         epoch_counter = 0
         metaepoch_generations = []
+        parents = self.current_population
         while epoch_counter < self._generations:
-            offspring = self._ea.run(self.current_population, mutation_std=self._get_mutation_std())
+            offspring = self._ea.run(parents, mutation_std=self._get_mutation_std())
+            parents = offspring
             epoch_counter += 1
             metaepoch_generations.append(offspring)
 
